@@ -220,6 +220,23 @@ def running_coroutine_record_rule(run, f, rid):
 
 
 # ------------------------------------------------------------------ C11: a worker of a stopping pool exits
+def _worker_loop(f):
+    """The worker loop try_grow hands to submit_co: the closure of try_grow that calls try_run, or -- when the loop was
+    given a name -- the function the reference tree does not have that calls try_run and is entered from try_grow only."""
+    from analysis.facts import ref_items
+    from rules.common import owners
+    refb = set((ref_items(f.crate, f.config) or {}).get("bodies") or ())
+    out = []
+    for c in f.bodies:
+        if c.kind == "Promoted" or not any(norm(t.get("callee") or "") == POOL + "::try_run" for (_x, t) in c.calls()):
+            continue
+        if c.kind == "Closure" and c.npath.startswith(POOL + "::try_grow::{closure#"):
+            out.append(c)
+        elif c.kind in ("Fn", "AssocFn") and refb and c.npath not in refb and owners(f, c.npath, {POOL + "::try_grow"}) == {POOL + "::try_grow"}:
+            out.append(c)
+    return out
+
+
 def worker_exit_rule(run, f, rid):
     """In the worker loop (the closure try_grow submits), an idle round -- try_run found nothing -- on which can_recycle()
     is true ends the worker.  Otherwise workers of a stopping pool linger (until a keep-alive they may never reach), running
@@ -228,7 +245,7 @@ def worker_exit_rule(run, f, rid):
     host = need(run, rid, f, POOL + "::try_grow")
     if host is None:
         return
-    cands = [c for c in f.bodies if c.kind == "Closure" and c.npath.startswith(POOL + "::try_grow::{closure#") and any(norm(t.get("callee") or "") == POOL + "::try_run" for (_x, t) in c.calls())]
+    cands = _worker_loop(f)
     if len(cands) != 1:
         run.fail(rid, "worker-loop/exit", host.loc(), "the worker loop (closure of try_grow calling try_run) was not found")
         return
@@ -370,7 +387,7 @@ def idle_block_rule(run, f, rid):
     is parked nothing else on that event loop runs: no timer is promoted, no readiness is polled.  The park must therefore
     be a compile-time constant no longer than the scheduling slice (10 ms)."""
     run.rule(rid, "the idle park of the worker loop is a constant of at most one scheduling slice", floor=1, template="T5 (constant provenance)")
-    cands = [c for c in f.bodies if c.kind == "Closure" and c.npath.startswith(POOL + "::try_grow::{closure#") and any(norm(t.get("callee") or "") == POOL + "::try_run" for (_x, t) in c.calls())]
+    cands = _worker_loop(f)
     if len(cands) != 1:
         run.fail(rid, "worker-loop/idle-park", POOL + "::try_grow", "the worker loop (closure of try_grow calling try_run) was not found")
         return
